@@ -256,3 +256,32 @@ package cl
 //@   on-call Call#1 leading-args: forall j :: (0 <= j && j < len(args) - 2) ==> $arg1[j] == args[j + 1]
 //@   on-call Call#1 list-elements: forall j :: (0 <= j && j < len(larg)) ==> $arg1[len(args) - 2 + j] == larg[j]
 //@   on-call Call#1 scope: $arg0 == s
+
+// ---------------------------------------------------------------------------
+// C14: sequence functions honour their keywords.
+//@ stable-struct cl.seqFunVars cl.dupInfo
+
+// remove / delete on lists: the key and the test are applied exactly to the
+// elements at positions start <= i < end (scanning in either direction).
+//@ func cl.(*Delete).inList
+//@   property C14
+//@   on-call Call key-and-test-only-in-range: sfv.start <= i && i < sfv.end
+//@   on-call ObjectEqual test-only-in-range: sfv.start <= i && i < sfv.end
+
+// remove-duplicates: the test receives (earlier-kept-candidate later) as (v u)
+// in the documented order.
+//@ func cl.(*dupInfo).has
+//@   property C14
+//@   on-call Call#2 test-argument-order: len($arg1) == 2 && $arg1[0] == v && $arg1[1] == u
+
+// stable-sort: elements are compared with the predicate applied to
+// (key(list[i]), key(list[j])) in that order, by the stable library sort.
+//@ func cl.stableSortObjects
+//@   property C14
+//@   count-calls SliceStable Slice
+//@   ensures stable-library-sort: $ncall_SliceStable == 1 && $ncall_Slice == 0
+//@ func cl.stableSortObjects$2
+//@   property C14
+//@   option trace
+//@   on-call Call#3 predicate-argument-order: len($arg1) == 2 && $arg1[0] == vi && $arg1[1] == vj
+//@   ensures less-is-predicate: result0 <==> truthy($eres[$n - 1])
